@@ -110,6 +110,8 @@ def run_tie(run, tier, seed, streams, prims):
             if key in seen:
                 continue                      # the same call given by name / by the unit's port / by an unrelated Signal
             seen.add(key)
+            if not quick and lc[4] > 8 and len(seen) % 4 != 0:
+                continue                      # thorough tier: every n <= 8, every fourth of the larger stacks
             jobs.append(j)
             lcs.append(lc)
     # bus-valued series ports (the C19 streams have none of equal width): every ordered pair of equally wide ports
